@@ -1,9 +1,11 @@
 import Fips204.Props.C10
 import Fips204.Lemmas.KeyDecode
+import Fips204.Lemmas.SkDecide
 /-!
-# C10 (continued) — deserialisation of a private key never faults
+# C10 (continued) — private-key deserialisation: never faults, and accepts exactly the in-range keys
 
-Kept in a second file because it depends on the accumulator-invariant lemmas (`Lemmas/Unpack`, `Lemmas/KeyDecode`).
+Kept in a second file because it depends on the accumulator-invariant lemmas (`Lemmas/Unpack`, `Lemmas/KeyDecode`,
+`Lemmas/SkDecide`).
 -/
 namespace Fips204.Props.C10
 open Fips204 Fips204.Gen Fips204.Impl
@@ -15,5 +17,29 @@ theorem sk_decode_never_faults (m : Mode) (p : ParamSet) (skb : List Nat) (hb : 
     (hlen : skb.length = 128 + 32 * ((p.k + p.l) * bl + D.toNat * p.k)) (hcfg : p.skLen = skb.length) :
     ∃ r, skDecode m p skb = .ok r :=
   skDecode_no_fault m p skb hb he bl hbl hlen hcfg
+
+theorem sk_config (m : Mode) : ∀ p ∈ [ml_dsa_44, ml_dsa_65, ml_dsa_87], ∃ bl, (p.eta = 2 ∨ p.eta = 4) ∧
+    bitLen m (2 * p.eta) = .ok bl ∧ p.skLen = 128 + 32 * ((p.k + p.l) * bl + D.toNat * p.k) := by
+  intro p hp
+  simp only [List.mem_cons, List.mem_nil_iff, or_false] at hp
+  rcases hp with rfl | rfl | rfl
+  · exact ⟨3, Or.inl rfl, of_toOption _ _ (by cases m <;> decide +kernel), by decide⟩
+  · exact ⟨4, Or.inr rfl, of_toOption _ _ (by cases m <;> decide +kernel), by decide⟩
+  · exact ⟨3, Or.inl rfl, of_toOption _ _ (by cases m <;> decide +kernel), by decide⟩
+
+/-- **the property, both directions, for every byte string**: for each parameter set and every byte string of
+    private-key length, `sk_decode` returns `Ok` exactly when every field of the `s1` and `s2` sections is at most
+    `2 eta` (i.e. encodes a coefficient in `[-eta, eta]`), and `Err` otherwise; it never panics -/
+theorem sk_decode_accepts_exactly_the_in_range_keys (m : Mode) (p : ParamSet) (hp : p ∈ [ml_dsa_44, ml_dsa_65, ml_dsa_87])
+    (skb : List Nat) (hb : ∀ x ∈ skb, x < 256) (hlen : skb.length = p.skLen) :
+    ∃ bl parts, bitLen m (2 * p.eta) = .ok bl ∧ skDecode m p skb = .ok (if skFieldsOk p bl skb then some parts else none) := by
+  obtain ⟨bl, he, hbl, hcfg⟩ := sk_config m p hp
+  obtain ⟨parts, h⟩ := skDecode_decision m p skb hb he bl hbl (by rw [hlen, hcfg]) hlen.symm
+  exact ⟨bl, parts, hbl, h⟩
+
+/-- non-vacuity of the field test on a concrete string: the all-zero ML-DSA-44 key passes (every field 0 = coefficient eta),
+    one byte 7 in the first field fails (field 7 > 4 = coefficient -5, the F1 witness) -/
+example : skFieldsOk ml_dsa_44 3 (List.replicate 2560 0) = true ∧
+    skFieldsOk ml_dsa_44 3 (List.replicate 128 0 ++ 7 :: List.replicate 2431 0) = false := by decide +kernel
 
 end Fips204.Props.C10
